@@ -30,10 +30,16 @@ type Ref struct {
 func NewRef(w *World) *Ref {
 	r := &Ref{W: w, Delivered: map[int]bool{0: true}, Connected: map[int]bool{0: true}, Links: map[int]map[int]map[int]bool{},
 		Rejected: map[int]string{}, Justified: map[int]bool{0: true}, Finalized: map[int]bool{}, Root: 0, E: w.Net.E}
+	if w.Base != nil {
+		// the world hangs on a prelude: its root block is an ordinary unjustified checkpoint, the finalized root is genesis
+		r.Justified = map[int]bool{Genesis: true}
+		r.Connected[Genesis] = true
+		r.Root = Genesis
+	}
 	return r
 }
 
-func (r *Ref) isCheckpoint(i int) bool { return r.W.Blocks[i].Height%r.E == 0 }
+func (r *Ref) isCheckpoint(i int) bool { return r.W.HeightOf(i)%r.E == 0 }
 
 // cpParent returns the checkpoint block that is the parent checkpoint of checkpoint block t (-1 for the world root).
 func (r *Ref) cpParent(t int) int {
@@ -41,6 +47,9 @@ func (r *Ref) cpParent(t int) int {
 		if r.isCheckpoint(x) {
 			return x
 		}
+	}
+	if r.W.Base != nil && t != Genesis {
+		return -2 // the parent checkpoint lies in the prelude (outside the world)
 	}
 	return -1
 }
@@ -51,6 +60,9 @@ func (r *Ref) inTree(i int) bool { return r.Connected[i] && r.W.IsAncestor(r.Roo
 func (r *Ref) nValidators(t int) int {
 	p := r.cpParent(t)
 	if p < 0 {
+		if cb := r.W.Net.CheckpointBlock(r.W.Blocks[t].Parent); cb != nil {
+			return len(cb.CP.EffectiveValidators())
+		}
 		return 0
 	}
 	return len(r.W.Blocks[p].CP.EffectiveValidators())
@@ -84,15 +96,15 @@ func (r *Ref) admit(v, s, t int, badSig bool) string {
 	if !r.isCheckpoint(t) {
 		return "target-not-checkpoint"
 	}
-	if W.Blocks[s].Height >= W.Blocks[t].Height {
+	if W.HeightOf(s) >= W.HeightOf(t) {
 		return "source-not-below-target"
 	}
 	if badSig {
 		return "bad-signature"
 	}
-	hs, ht := W.Blocks[s].Height, W.Blocks[t].Height
+	hs, ht := W.HeightOf(s), W.HeightOf(t)
 	for _, st := range r.votesOf(v) {
-		hs2, ht2 := W.Blocks[st[0]].Height, W.Blocks[st[1]].Height
+		hs2, ht2 := W.HeightOf(st[0]), W.HeightOf(st[1])
 		if ht2 == ht && st[1] != t {
 			return "slash-same-height"
 		}
@@ -221,7 +233,7 @@ func (r *Ref) closure() {
 		}
 	}
 	for f := range r.Finalized {
-		if r.W.Blocks[f].Height > r.W.Blocks[r.Root].Height {
+		if r.W.HeightOf(f) > r.W.HeightOf(r.Root) {
 			r.Root = f
 		}
 	}
@@ -234,7 +246,7 @@ func (r *Ref) Best() int {
 		if !r.inTree(i) {
 			continue
 		}
-		j := r.W.Blocks[r.Root].Height
+		j := r.W.HeightOf(r.Root)
 		for x := i; x != r.Root && x >= 0; x = r.W.Parent[x] {
 			if r.isCheckpoint(x) && r.Justified[x] && r.W.Blocks[x].Height > j {
 				j = r.W.Blocks[x].Height
@@ -256,14 +268,14 @@ func (r *Ref) Best() int {
 func (r *Ref) Summary() string {
 	var js, fs []string
 	for j := range r.Justified {
-		js = append(js, r.W.Names[j])
+		js = append(js, r.W.NameOf(j))
 	}
 	for f := range r.Finalized {
-		fs = append(fs, r.W.Names[f])
+		fs = append(fs, r.W.NameOf(f))
 	}
 	sort.Strings(js)
 	sort.Strings(fs)
-	return fmt.Sprintf("justified=%v finalized=%v root=%s best=%s pending=%d", js, fs, r.W.Names[r.Root], r.W.Names[r.Best()], len(r.Pending))
+	return fmt.Sprintf("justified=%v finalized=%v root=%s best=%s pending=%d", js, fs, r.W.NameOf(r.Root), r.W.NameOf(r.Best()), len(r.Pending))
 }
 
 func hashStr(w *World, i int) string {
